@@ -62,7 +62,7 @@ package generic
 //@   ensures #precedence driverOpts.FailedWhenContains == (len(old(driverOpts.FailedWhenContains)) == 0 ? d.FailedWhenContains : old(driverOpts.FailedWhenContains))
 //@   ensures #response result.1 == nil ==> fresh(result.0) && respWF(result.0) && result.0.Input == command && result.0.FailedWhenContains == driverOpts.FailedWhenContains
 //@   ensures #failed-implies-contains result.1 == nil && result.0.Failed != nil ==> containsAnyS(result.0.Result, result.0.FailedWhenContains)
-//@   ensures #contains-implies-failed result.1 == nil && validFWC(result.0.FailedWhenContains) && containsAnyS(result.0.Result, result.0.FailedWhenContains) ==> result.0.Failed != nil
+//@   ensures #contains-implies-failed result.1 == nil && containsAnyS(result.0.Result, result.0.FailedWhenContains) ==> result.0.Failed != nil
 
 //@ func (*Driver).SendCommand [C13]
 //@   at call! sendCommand#1 assert [C01] #the-command-is-sent-with-the-operation-options arg0 == command && arg1 == op && arg2 === opts
@@ -71,7 +71,7 @@ package generic
 //@   ensures #one-exchange result.1 == nil ==> sent == old(sent) ++ strs(command)
 //@   ensures #nil-on-error result.1 != nil ==> result.0 == nil
 //@   ensures #failed-implies-contains result.1 == nil && result.0.Failed != nil ==> containsAnyS(result.0.Result, result.0.FailedWhenContains)
-//@   ensures #contains-implies-failed result.1 == nil && validFWC(result.0.FailedWhenContains) && containsAnyS(result.0.Result, result.0.FailedWhenContains) ==> result.0.Failed != nil
+//@   ensures #contains-implies-failed result.1 == nil && containsAnyS(result.0.Result, result.0.FailedWhenContains) ==> result.0.Failed != nil
 
 //@ func (*Driver).SendCommands [C13]
 //@   at call! sendCommand#1 assert [C01] #every-command-of-the-batch-is-sent-with-the-operation-options arg1 == op && arg2 === opts
